@@ -1108,6 +1108,7 @@ type Opts struct {
 	Params                      map[string]int
 	Known                       []KnownRegion
 	BoundIsViolation            bool
+	StopAfterViol               int         // stop exploring a harness after this many candidate violations (0 = never)
 	CrossKind                   string      // second back end that re-decides every obligation ("" = none)
 	cross                       *sym.Solver // per worker
 }
@@ -1207,6 +1208,7 @@ type Stats struct {
 	SolverErrors         []string
 	Wall                 time.Duration
 	PathLimitHit         bool
+	StoppedEarly         bool // exploration stopped after Opts.StopAfterViol candidate violations
 	NViol, NKnown        int // exact counts (Violations / KnownHits keep at most 8 witnesses per message / finding)
 	keep                 map[string]int
 	CrossQ, CrossUnknown int
@@ -1260,6 +1262,11 @@ func Explore(p *Program, harness string, o Opts, nWorkers int, solverKind string
 				mu.Lock()
 				for len(queue) == 0 && active > 0 {
 					cond.Wait()
+				}
+				if o.StopAfterViol > 0 && st.NViol >= o.StopAfterViol && len(queue) > 0 {
+					// enough candidate violations: the rest of the exploration would only add to them
+					st.StoppedEarly = true
+					queue = nil
 				}
 				if len(queue) == 0 || (maxPaths > 0 && st.Paths >= maxPaths) {
 					if len(queue) > 0 {
